@@ -279,6 +279,7 @@ def run(prog, chk):
     position_preserving_probe(prog, chk, "C19.h")
     copy_destination_flags(prog, chk, "C19.i")
     stale_path_summaries(prog, chk, "C19.j")
+    stem_extension_cut(prog, chk, "C19.k")
 
 
 def copy_destination_flags(prog, chk, rid):
@@ -583,3 +584,99 @@ def stale_path_summaries(prog, chk, rid):
                         v, q.no_casts(f.r(g))[:40], q.no_casts(f.r(m))[:40], f.path_lines(path)[:10]), f.path_lines(path), evals=pairs + 1)
         else:
             chk.ok(rid, f, "accumulator loop: %d cached summaries, all refreshed after every change" % pairs, where, "reaching-definition search from each change to each guard", evals=pairs + 1, nontrivial=pairs > 0)
+
+
+def _dot_scan(f):
+    """how a backward scan treats a dot: ("cut-at-first-met" | "keeps-first-met" | "keeps-last-met" | None, conditions evaluated between the
+    dot test and the cut).  The scan meets the LAST dot of the name first."""
+    for b in f.blocks.values():
+        c = b.get("cond")
+        if c is None or len(b["succ"]) != 2 or b.get("tk") == "SwitchStmt" or not C.loop_blocks(f, f.strip(c)):
+            continue
+        # the dot test: an equality of one byte-valued operand with '.', however the byte is obtained (`*pos`, `start[i - 1]`, a local `c`)
+        cn_ = f.nodes[f.strip(c)]
+        if cn_["k"] != "BinaryOperator" or cn_.get("op") not in ("==", "!=") or len(cn_["c"]) != 2:
+            continue
+        sides = [fin.eval_expr(f, x_, {}) for x_ in cn_["c"]]
+        if sides.count(46) != 1:
+            continue
+        opnd = cn_["c"][0] if sides[1] == 46 else cn_["c"][1]
+        k = fin.key(f, opnd)
+        if not (fin.eval_expr(f, c, {k: 46}) and fin.eval_expr(f, c, {k: 47}) == 0 and fin.eval_expr(f, c, {k: 97}) == 0):
+            continue
+        lb = C.loop_blocks(f, f.strip(c))
+        heads = [x for x in lb if any(p_ not in lb for p_ in f.preds.get(x, []))]
+        # region behind the dot edge, up to the loop's back edge / exit
+        region, conds, stack = set(), [], [b["succ"][0]]
+        leaves, loops_back, rec = False, False, []
+        while stack:
+            x = stack.pop()
+            if x is None or x in region:
+                continue
+            if x in heads or x == b["id"]:
+                loops_back = True
+                continue
+            if x == f.exit:
+                leaves = True
+                continue
+            region.add(x)
+            xb = f.blocks[x]
+            for e in xb["el"]:
+                if isinstance(e, int) and f.nodes[e]["k"] == "BinaryOperator" and f.nodes[e].get("op") == "=":
+                    l_ = f.nodes[f.strip(f.nodes[e]["c"][0])]
+                    if l_["k"] == "DeclRefExpr" and l_["ref"].get("dk") == "local" and "*" in (l_["ref"].get("t") or ""):
+                        rec.append(e)       # the position of this dot is kept in a pointer local
+            if isinstance(xb.get("term"), int) and f.nodes[xb["term"]]["k"] == "ReturnStmt" or any(isinstance(e, int) and f.nodes[e]["k"] == "ReturnStmt" for e in xb["el"]):
+                leaves = True
+                continue
+            if xb.get("cond") is not None and len(xb["succ"]) == 2 and f.node_pos(f.strip(xb["cond"])) is not None and "++" not in fin.key(f, xb["cond"]) and "--" not in fin.key(f, xb["cond"]):
+                is_step = any(isinstance(e, int) and f.nodes[e]["k"] == "UnaryOperator" and f.nodes[e].get("op") in ("--", "++") for e in xb["el"])
+                if not is_step:
+                    conds.append(q.no_casts(fin.key(f, xb["cond"])))
+            stack.extend(xb["succ"])
+        if rec:
+            # recorded and scanned on: which occurrence survives?
+            first_only = all(any(a[0] != "case" and not a[1] and fin.key(f, a[0]) == q.no_casts(f.r(f.nodes[e]["c"][0])) or
+                                 a[0] != "case" and fin.null_test(f, a[0]) is not None and fin.null_test(f, a[0])[0] == q.no_casts(f.r(f.nodes[e]["c"][0])) and
+                                 (fin.null_test(f, a[0])[1] == 0) == bool(a[1])
+                                 for a in fin.dominating_atoms(f, f.node_pos(e))) for e in rec)
+            if loops_back and not first_only:
+                return "keeps-last-met", conds, rec[0]
+            # the test that makes the record a keep-first one is part of the mechanism, not a condition on the name
+            names = set(q.no_casts(f.r(f.nodes[e]["c"][0])) for e in rec)
+            conds = [c_ for c_ in conds if c_.strip("()!") not in names and not re.fullmatch(r"\(?(%s) (==|!=) (0|nullptr)\)?" % "|".join(re.escape(n_) for n_ in names), c_)]
+            return "keeps-first-met", conds, rec[0]
+        if leaves and not loops_back:
+            return "cut-at-first-met", conds, f.strip(c)
+    return None, [], None
+
+
+def stem_extension_cut(prog, chk, rid):
+    """getStem and getExtension take a base name apart; put together again (stem + "." + extension) they have to give the base name
+    back.  Both scan backwards from the end, so both have to settle on the same dot - the one met first - under the same conditions."""
+    chk.rule(rid, "SIB: the backward scans of File::getStem and File::getExtension cut the name at the same dot: the first one met (the last "
+                  "dot of the name), with no condition that only one of the two applies", floor=1)
+    st = [f for f in prog.functions.values() if f.name == "File::getStem" and f.blocks]
+    ex = [f for f in prog.functions.values() if f.name == "File::getExtension" and f.blocks]
+    if not st or not ex:
+        raise AnalysisBroken("File::getStem / File::getExtension not found")
+    ks, cs, ns = _dot_scan(st[0])
+    ke, ce, ne = _dot_scan(ex[0])
+    if ks is None or ke is None:
+        raise AnalysisBroken("the dot test of the backward scan was not found in %s" % ("getStem" if ks is None else "getExtension"))
+    last_s = ks in ("cut-at-first-met", "keeps-first-met")
+    last_e = ke in ("cut-at-first-met", "keeps-first-met")
+    if last_s != last_e:
+        odd, oddn, what = (st[0], ns, ks) if not last_s else (ex[0], ne, ke)
+        chk.bad(rid, odd, "stem-extension-different-dot", odd.where(oddn),
+                "%s %s while its sibling settles on the dot met first: for `a.tar.gz` the stem is `a` but the extension `gz` - "
+                "stem + \".\" + extension gives `a.gz`, not the base name" % (
+                    odd.name, "overwrites the recorded dot with every further one (ends at the first dot of the name)" if what == "keeps-last-met" else "settles on the last dot of the name"), evals=2)
+    elif sorted(cs) != sorted(ce):
+        odd = ex[0] if len(ce) > len(cs) else st[0]
+        extra = sorted(set(ce) ^ set(cs))
+        chk.bad(rid, odd, "stem-extension-different-condition", odd.where(ne if odd is ex[0] else ns),
+                "behind the dot test %s also asks `%s`, its sibling does not: for the names where that makes a difference (e.g. `.profile`) "
+                "stem and extension no longer add up to the base name" % (odd.name, extra[0][:60]), evals=2)
+    else:
+        chk.ok(rid, st[0], "getStem and getExtension both cut at the dot met first, unconditionally", "%s:%s" % (st[0].file, st[0].line), "scan classification: %s / %s" % (ks, ke), evals=2)
